@@ -128,7 +128,8 @@ FAMILIES = {
             {},
             {'f': {'max': 7.0, 'unit': 'C'}, 'i': {'value': 3}},
             {'f': {'value': 2.0, 'readonly': True}, 'e': {'value': 2}, 'visibility': 'expert'},
-            {'f': {'export': False}, 'arr': {'maxlen': 2}, 's': {'visibility': 'advanced'}, 'cmd': {'visibility': 'expert'}},
+            {'f': {'export': False}, 'sc': {'export': 'scaled'}, 'arr': {'maxlen': 2}, 's': {'visibility': 'advanced'},
+             'cmd': {'visibility': 'expert', 'export': 'run'}},
             {'export': False, 'f': {'min': 1}},
         ],
         'quick_configs': [0, 1, 2, 3],
@@ -334,6 +335,8 @@ FAMILIES = {
                                'readonly': False}],
                 'status': ['P', {'datatype': ['status', 'Drivable', ['PREPARING']]}],
                 'target_max': ['L', {}],
+                'userlimits': ['P', {'description': 'user limits', 'datatype': ['limits', ['double', {'unit': '$'}]],
+                                     'default': [-1e9, 1e9], 'readonly': False}],
             }},
             'Dr2': {'bases': ['Dr'], 'body': {'value': ['P', {'unit': 'mm'}], 'stop': ['M', 'doc:plain stop']}},
             'Dr3': {'bases': ['Dr'], 'body': {'status': ['P', {'datatype': ['status', 'Drivable', ['WARN_STANDBY']]}],
@@ -360,8 +363,9 @@ FAMILIES = {
             'amax': {'needs': ['a'], 'op': ['setprop', 'a', [], 'max', 1]},
             'assign': {'needs': ['a_max'], 'op': ['assign', 'a_max', 2]},
             'status': {'needs': ['status'], 'op': ['statusgrow', 'UNSTABLE']},
+            'ulmax': {'needs': ['userlimits'], 'op': ['setprop', 'userlimits', [0], 'max', 360.0]},
         },
-        'quick_mutations': ['vunit', 'tmax', 'amax', 'assign', 'status'],
+        'quick_mutations': ['vunit', 'tmax', 'amax', 'assign', 'status', 'ulmax'],
     },
 }
 
@@ -372,6 +376,28 @@ PROBES = [None, True, 0, 1, 2, 3, 4, 5, 7, 9, 10, 11, 20, 21, 45, 100, 350, -1, 
           {'x': 1}, {'x': 2.5}, {'x': 4}, {'x': 1, 'y': 'abc'}, {'x': 1, 'y': 'abcd'}, {'x': 1, 'y': 'abcde'}, {'y': 'a'},
           {'a': 1}, {'a': 3, 'b': 'ab'}, {'a': 6}, {'a': 1, 'b': 'abcd'}, {}]
 CHANGE_PROBES = [0, 1, 3, 4.5, 8.5, 11, 35, 'b', 'z', 'ctl', ['abc'], ['a', 'b', 'c'], {'x': 1}, {'x': 2.5, 'y': 'ab'}, [1, True]]
+
+
+def wire_candidates(fam):
+    """every wire name an accessible of the family can have: <name> and _<name> of every accessible of every class, and the
+    custom names given in the configurations - a static set, the same for a program and for the alone build"""
+    names = set()
+    for rec in fam['classes'].values():
+        for attr, item in rec['body'].items():
+            if item[0] in ('P', 'L', 'C', 'V', 'M', 'N', 'PP') and not attr.startswith(('write_', 'read_', 'check_', 'do')):
+                names.update((attr, '_' + attr))
+    for b in ('value', 'status', 'target', 'pollinterval', 'stop', 'controlled_by', 'control_active'):
+        names.add(b)
+
+    def scan(cfg):
+        for v in cfg.values():
+            if isinstance(v, dict):
+                if isinstance(v.get('export'), str):
+                    names.add(v['export'])
+                scan(v)
+    for cfg in fam['configs']:
+        scan(cfg)
+    return sorted(names)
 
 
 DO_PROBES = CHANGE_PROBES[:6] + [{'a': 1}, {'a': 3, 'b': 'ab'}, {'b': 'x'}, {'x': 1}, {'x': 1, 'y': 2}, {'y': 2}, None]
@@ -695,6 +721,17 @@ class World:
                     rows.append(self._req(f'do {name}:{ext} {json.dumps(x)}' if x is not None else f'do {name}:{ext}'))
             out[aname] = rows
         out['drvlog'] = list(obj.__dict__.get('drvlog', []))
+        # which wire names the module answers to - also names it does not describe (a hidden or renamed accessible)
+        served = []
+        for wname in wire_candidates(self.fam):
+            rep = self._req(f'read {name}:{wname}')
+            if not (rep[0].startswith('error') and rep[1] in ('NoSuchParameter', 'NoSuchModule')):
+                served.append(wname)
+            else:
+                rep = self._req(f'do {name}:{wname}')
+                if not (rep[0].startswith('error') and rep[1] in ('NoSuchCommand', 'NoSuchModule', 'NoSuchParameter')):
+                    served.append(wname + '()')
+        out['served-wire-names'] = served
         return out
 
     def _req(self, line):
